@@ -343,6 +343,10 @@ fn measure_sized(sc: &OpSc, m: i64, big: usize, iset: &mut InstructionSet) -> Re
         st.int_stack.push(if (sc.seed / 4) % 4 == 3 { 1 } else { 0 });
         st.float_stack.push(if (sc.seed / 4) % 4 == 3 { 1.0 } else { 0.0 });
     }
+    if sc.instr == "EXEC.CMD" {
+        // an argument count the NAME stack can serve, so that the spawn is reached
+        st.int_stack.push((sc.seed % 3) as i32);
+    }
     push_subject(&mut st, &sc.instr, mi as i32, big);
     let statebytes = statecode::statecode(&st).len() as u64;
     // (the magnitude goes into the trace: if this step kills the process the supervisor knows where)
@@ -434,6 +438,19 @@ pub fn execute_op(sc: &OpSc, iset: &mut InstructionSet) -> OpResult {
                 worst = worst.max(ratio);
                 stats.draws += c.draws;
                 stats.clock_us += c.slept_us;
+                // blocking: simulated sleeps and waits inside one step (EXEC.CMD's documented one-second
+                // pause is within it; waiting for a child to end is waiting for something nothing bounds)
+                if c.slept_us > 10_000_000 {
+                    vs.push(Violation {
+                        property: "C15".into(),
+                        class: "oracle:blocking".into(),
+                        site: format!("{}: one step blocks for longer than ten simulated seconds", sc.instr),
+                        detail: format!("{} blocked for {} simulated microseconds within one step (sleeps and waits on the clock / process seam)", sc.instr, c.slept_us),
+                        at_event: m as u64,
+                    });
+                    stats.outcome = "excess".into();
+                    break;
+                }
                 let draw_bound = 64 + 64 * c.statebytes;
                 let mut excess: Option<(&str, u64, u64, u64)> = None;
                 if c.bytes > bound {
